@@ -1,3 +1,67 @@
+// vworker links the real crd packages and exposes a few of their entry points
+// to the driver. One invocation = one shard = one process; every case id is
+// printed before the call so that a crash or hang can be attributed.
+//
+// Output: JSON lines on stdout.
 package main
 
-func main() {}
+import (
+	"bufio"
+	"encoding/json"
+	"fmt"
+	"os"
+	"strconv"
+)
+
+var out = bufio.NewWriterSize(os.Stdout, 1<<20)
+
+func emit(v any) {
+	b, _ := json.Marshal(v)
+	out.Write(b)
+	out.WriteByte('\n')
+}
+
+// begin announces a case (flushed, so it survives a crash).
+func begin(id string) {
+	fmt.Fprintf(os.Stderr, "CASE %s\n", id)
+}
+
+func atoi(s string, d int) int {
+	v, err := strconv.Atoi(s)
+	if err != nil {
+		return d
+	}
+	return v
+}
+
+func main() {
+	defer out.Flush()
+	if len(os.Args) < 2 {
+		fmt.Fprintln(os.Stderr, "usage: vworker MODE ...")
+		os.Exit(2)
+	}
+	switch os.Args[1] {
+	case "degrees":
+		modeDegrees(atoi(arg(2), 64))
+	case "parsestrings":
+		modeParseStrings(arg(2), atoi(arg(3), 4), atoi(arg(4), 0), atoi(arg(5), 1))
+	case "parse":
+		modeParse()
+	case "scalars":
+		modeScalars()
+	case "chains":
+		modeChains(atoi(arg(2), 6), atoi(arg(3), 0), atoi(arg(4), 1))
+	case "iter":
+		modeIter(atoi(arg(2), 100), int64(atoi(arg(3), 1)))
+	default:
+		fmt.Fprintln(os.Stderr, "unknown mode")
+		os.Exit(2)
+	}
+}
+
+func arg(i int) string {
+	if i < len(os.Args) {
+		return os.Args[i]
+	}
+	return ""
+}
